@@ -9,6 +9,7 @@ The body of a command is reached only through `invoke … = .body _`, which need
 -/
 import LimnoriaModel.C01.Lemmas
 import LimnoriaModel.C01.Required
+import LimnoriaModel.C01.Total
 namespace C01
 open Py C03
 
@@ -469,6 +470,39 @@ theorem guarded_body_needs_capability (db : Db) (now : Int) (m : Msg) (P : Str) 
     obtain ⟨c', hc, hk⟩ := converter_guard db now m oth spec 0 _ st c hmem hr
     exact absurd hk (hlack c' hc)
   | _ => rfl
+
+/-! ## the gate never crashes -/
+
+/-- **The gate never crashes**: for every database (arbitrary stored capability sets), time and
+caller, when the plugin's name is canonical, the message's channel is a channel name and every
+checked name is a plain word, `_callCommand`'s decision is allow / denied / default-denied — never
+an assertion failure or an escaping KeyError. -/
+theorem gate_no_crash (db : Db) (now : Int) (m : Msg) (P : Str) (cmd : List Str) (y : Str)
+    (hP : canonicalName P = asciiLower P) (hy : cmd.getLast? = some y)
+    (hnames : ∀ n ∈ checkedNames P cmd y, validBase n = true)
+    (hch : ChanOK m.channel) (e : Err) : gate db now m P cmd ≠ .crash e := by
+  have hne : cmd ≠ [] := by
+    intro h; subst h; simp at hy
+  unfold gate
+  rw [hy]
+  simp only
+  rw [gateChecks_eq db now m P cmd y hP hne]
+  rcases firstDeny_mem ((checkedNames P cmd y).map (checkName db now m)) with h | h
+  · rw [h]; simp
+  · intro hc
+    rw [hc] at h
+    obtain ⟨n, hn, hcn⟩ := List.mem_map.1 h
+    exact checkName_no_crash db now m n (baseOK_of_valid (hnames n hn)) hch e hcn
+
+/-- every name the gate builds for a command of the inventory (called directly or
+plugin-qualified) is a plain word: `gate_no_crash` applies to every bundled command -/
+theorem inventory_names_plain :
+    Gen.commands.all (fun r =>
+      match r.path.getLast? with
+      | none => false
+      | some y =>
+        ((checkedNames r.plugin r.path y) ++ (checkedNames r.plugin (canonicalName r.plugin :: r.path) y)).all validBase) = true := by
+  decide +kernel
 
 /-! ## re-dispatch sites: whose message reaches the gate -/
 
